@@ -530,7 +530,9 @@ class Queue(Greenlet):
         if not self.relay:
             return
         self._pool_spawn('store', self._load_all)
-        self._pool_spawn('store', self._wait_store)
+        # Not in the store pool: the waiter never finishes and would occupy
+        # one of its slots for good.
+        gevent.spawn(self._wait_store)
         while True:
             self.queued_lock.acquire()
             try:
